@@ -362,6 +362,17 @@ def c04_r3(ctx: Ctx, rule):
                     break
             if ok:
                 must.add(a[3:-1])
+    # equality compares the attribute pairs as a *set*: the hash must not depend on their order either
+    hf = ctx.fn(hq)
+    eqf = ctx.fn(eqq)
+    eq_as_set = any(isinstance(c, ast.Call) and call_name(c) in ("set", "frozenset") and c.args and "attributes" in norm(c.args[0]) for c in walk_function(eqf.node))
+    for c in walk_function(hf.node):
+        if isinstance(c, ast.Call) and isinstance(c.func, ast.Name) and c.args and "attributes" in norm(c.args[0]) and c.func.id in ("tuple", "list", "frozenset", "set", "sorted", "str", "repr"):
+            order_free = c.func.id in ("frozenset", "set")
+            res.ob("ProvRecord.__hash__ takes the attribute pairs through %s(); __eq__ compares them as sets: %s; order-independent: %s" % (c.func.id, eq_as_set, order_free))
+            if eq_as_set and not order_free:
+                res.fail(rule.id, "hash-order-dependent", ctx.loc(hq, c), "__hash__ hashes %s, which depends on the order the attributes were supplied in, while __eq__ compares them as sets" % norm(c)[:50],
+                         "two records with the same extra attributes given in different orders are == but hash differently: a document holding both is unequal to the document holding one")
     cache_fields = {p for p in projs if p in {s.lstrip("_") for s in stores}}
     for p in sorted(projs - cache_fields):
         ok = p in must
@@ -450,6 +461,20 @@ def c04_r4(ctx: Ctx, rule):
             # or a mirror loop over other's collection
             mirror = any(isinstance(l2, ast.For) and l2 is not loop and (ex.proj(l2.iter.func.value if isinstance(l2.iter, ast.Call) and isinstance(l2.iter.func, ast.Attribute) else l2.iter) or ("", ""))[0] == "other"
                          and ln.id in dom.get(g.nodes_of(l2)[0].id, set()) | {0} and l2 in fi.node.body for l2 in walk_function(fi.node))
+            # inside the loop: a key of self that other does not have makes the objects unequal - the `not in other` arm returns False
+            for t in ast.walk(loop):
+                if isinstance(t, ast.If):
+                    conj = t.test.values if isinstance(t.test, ast.BoolOp) else [t.test]
+                    for cj in conj:
+                        if isinstance(cj, ast.Compare) and len(cj.ops) == 1 and isinstance(cj.ops[0], ast.NotIn):
+                            po = ex.proj(cj.comparators[0])
+                            if po and po[0] == "other" and isinstance(t.test, (ast.Compare,)) or (po and po[0] == "other" and isinstance(t.test, ast.BoolOp) and isinstance(t.test.op, ast.Or)):
+                                rf = any(isinstance(x, ast.Return) and isinstance(x.value, ast.Constant) and x.value.value is False for x in t.body)
+                                res.ob("%s.__eq__: `%s` makes the comparison fail (return False): %s" % (cls.rsplit(".", 1)[1], norm(cj)[:50], rf))
+                                if not rf:
+                                    res.fail(rule.id, "missing-member-ignored::%s::%s" % (cls, norm(cj)[:40]), ctx.loc(q, t),
+                                             "%s.__eq__ carries on when `%s` instead of returning False" % (cls.rsplit(".", 1)[1], norm(cj)[:50]),
+                                             "two documents with the same number of bundles, one bundle identifier changed: they compare equal and the renamed bundle's content is never compared")
             res.ob("%s.__eq__: loop over self.%s is paired with %s" % (cls.rsplit(".", 1)[1], coll, guard or ("a mirror loop" if mirror else "NOTHING")))
             if not guard and not mirror:
                 res.fail(rule.id, "one-sided-containment::%s::%s" % (cls, coll), ctx.loc(q, loop),
